@@ -26,7 +26,7 @@ MIXED = {
     'p_stay': 0.6,
     'hostile': 0.25,
     'faults': {'F1': 0.05, 'F2': 0.15, 'F3': 0.0, 'F4': 0.25, 'F5': 0.05, 'F6': 0.05, 'F9': 0.0,
-               'reg': 0.05, 'eval': 0.0},
+               'reg': 0.05, 'eval': 0.0, 'cmp': 0.02},
     'judges': ['struct'],
 }
 
